@@ -401,3 +401,34 @@ Qed.
 Example source_partial_ex : nodupb (map fst ([(1, 0)] ++ [(2, 1); (3, 0); (5, 2)])) = true /\
   source_impl [(1, 0)] [(2, 1); (3, 0); (5, 2)] = ([1; 3], false).
 Proof. vm_compute. split; reflexivity. Qed.
+
+(* Head/Next over a condition-filtered stream: an unevaluable element is reported as an error at the
+   end iff no element was valid *)
+Theorem cond_objs_error_iff : forall l,
+  snd (cond_objs l) = true <->
+  (forall t, In t l -> snd t <> 0) /\ (exists t, In t l /\ snd t = 2).
+Proof.
+  intros l.
+  assert (Hp : map fst (filter (fun t : stup => snd t =? 0) l) = [] <-> forall t, In t l -> snd t <> 0).
+  { induction l as [|a r IH]; simpl.
+    - split; [intros _ t [] | reflexivity].
+    - destruct (snd a =? 0) eqn:E; simpl.
+      + split; [discriminate|]. intros H. exfalso. apply (H a); [left; reflexivity | apply N.eqb_eq; exact E].
+      + rewrite IH. apply N.eqb_neq in E. split.
+        * intros H t [Ht|Ht]; [subst; exact E | apply H; exact Ht].
+        * intros H t Ht. apply H. right. exact Ht. }
+  assert (He : existsb (fun t : stup => snd t =? 2) l = true <-> exists t, In t l /\ snd t = 2).
+  { rewrite existsb_exists. split; intros [t [Ht E]]; exists t; (split; [exact Ht | apply N.eqb_eq; exact E]). }
+  assert (Hs : snd (cond_objs l) = match map fst (filter (fun t : stup => snd t =? 0) l) with
+                                   | [] => existsb (fun t : stup => snd t =? 2) l | _ => false end) by reflexivity.
+  rewrite Hs. clear Hs.
+  destruct (map fst (filter (fun t : stup => snd t =? 0) l)) as [|x xs].
+  - rewrite He. split.
+    + intros H. split; [apply Hp; reflexivity | exact H].
+    + intros [_ H]. exact H.
+  - split; [discriminate|]. intros [H _]. apply Hp in H. discriminate.
+Qed.
+
+Example cond_chunk_ex : cond_chunk [(4, 1); (5, 2)] = Ch [] true /\ cond_chunk [(4, 1); (5, 2); (6, 0)] = Ch [6] false /\
+  cond_chunk [(4, 1)] = Ch [] false.
+Proof. vm_compute. repeat split. Qed.
